@@ -6,7 +6,7 @@ cd /verif
 dirs=("$@"); [ ${#dirs[@]} -eq 0 ] && dirs=(/verif/seeded/*/)
 if [ -n "$(git -C /repo status --porcelain)" ]; then echo "/repo is not clean"; exit 2; fi
 for d in "${dirs[@]}"; do
-  d=${d%/}
+  d=$(realpath ${d%/})
   [ -f "$d/patch.diff" ] || continue
   if ! git -C /repo apply "$d/patch.diff" 2>/dev/null; then echo "$(basename $d): patch does not apply"; continue; fi
   out=$(VERIF_EVIDENCE_DIR=/tmp/seedcheck-evidence ./bin/dmverif -prop all -verif /tmp/seedcheck 2>&1)
